@@ -26,7 +26,7 @@ SPEC = dict(
         ref="DESIGN.md §6 C19, Appendix E"),
     imports="From Ship Require Import Base Avahi.\nOpen Scope N_scope.",
     case_type="c19_case", check_fn="check_c19",
-    drivers=[dict(bin="avahidrv", args=["-prop", "C19"], n_quick=240, n_thorough=3000, timeout=1400)],
+    drivers=[dict(bin="avahidrv", args=["-prop", "C19"], n_quick=600, n_thorough=6000, timeout=1400)],
     codes={10: "restarted_after_shutdown", 11: "stale_txt_after_down_time_call", 12: "stale_group_leaked_by_reannounce",
            13: "stale_txt_other", 14: "announcement_resurrected_after_down_time_unannounce",
            15: "announcement_unwanted_other", 16: "announcement_lost", 17: "duplicate_announcement",
